@@ -75,7 +75,7 @@ Proof. exact read_bytes_exact_alloc. Qed.
    all data present: 1 MiB + (2^20 + 1) *)
 Example C02_stream_read_bytes_cost_examples :
   read_bytes 1048577 (mkR [1; 2; 3]%N [Half]) = (Err EUnexpEOF, mkR [] [], 1048576%N) /\
-  snd (read_bytes 1048577 (mkR (repeat 7%N 1048577) [])) = 2097153%N.
+  snd (read_bytes 1048577 (mkR (repeat 7%N (N.to_nat 1048577)) [])) = 2097153%N.
 Proof. split; vm_compute; reflexivity. Qed.
 
 (* readFixedSize + sizeToInt: a size prefix that reaches ReadBytes, ReadCollection or the caller of PeekSize fits
